@@ -248,20 +248,23 @@ void sim_conv_begin (int armed, int code, int buf)
     g_sim_conv.armed = armed; g_sim_conv.code = code; g_sim_conv.buf = buf;
 }
 
+typedef int (*conv_fn) (const char *, char **, int);
 #ifdef SIM_WRAP_IDN2
 extern int __real_idn2_to_ascii_8z (const char *, char **, int);
-#define REAL_CONVERT(i,o) __real_idn2_to_ascii_8z ((i), (o), cflags)
+static conv_fn const default_conv = __real_idn2_to_ascii_8z;
 #else
-#define REAL_CONVERT(i,o) idn2_to_ascii_8z ((i), (o), cflags)
+static conv_fn const default_conv = idn2_to_ascii_8z;
 #endif
 
-int sim_convert_raw (const char *in, char **out, int *fault, int flags)
+void sim_conv_at (int at) { g_sim_conv.at = at < 1 ? 1 : at; }
+
+static int convert_with (conv_fn real, const char *in, char **out, int *fault, int flags)
 {
     int rc;
     int cflags = flags < 0 ? IDN2_NONTRANSITIONAL : flags;
     g_sim_conv.calls++;
     if (fault) *fault = 0;
-    if (g_sim_conv.armed && !g_sim_conv.fired) {
+    if (g_sim_conv.armed && !g_sim_conv.fired && g_sim_conv.calls >= (g_sim_conv.at ? g_sim_conv.at : 1)) {
         g_sim_conv.fired = 1;
         if (fault) *fault = 1;
         switch (g_sim_conv.buf) {
@@ -274,7 +277,7 @@ int sim_convert_raw (const char *in, char **out, int *fault, int flags)
         case SIM_BUF_C: {           /* real conversion done and discarded, then failure */
             char *t = NULL;
             in_raw++;
-            (void)REAL_CONVERT (in, &t);
+            (void)real (in, &t, cflags);
             if (t) __real_free (t);
             in_raw--;
             g_sim_conv.real_calls++;
@@ -284,7 +287,7 @@ int sim_convert_raw (const char *in, char **out, int *fault, int flags)
         rc = g_sim_conv.code;
     } else {
         in_raw++;
-        rc = REAL_CONVERT (in, out);
+        rc = real (in, out, cflags);
         in_raw--;
         g_sim_conv.real_calls++;
     }
@@ -292,18 +295,30 @@ int sim_convert_raw (const char *in, char **out, int *fault, int flags)
     return rc;
 }
 
-int sim_convert (const char *in, char **out, int flags)
+int sim_convert_raw (const char *in, char **out, int *fault, int flags) { return convert_with (default_conv, in, out, fault, flags); }
+
+static int convert_adopt (conv_fn real, const char *in, char **out, int flags)
 {
     int fault = 0;
     char *before = *out;
-    int rc = sim_convert_raw (in, out, &fault, flags);
+    int rc = convert_with (real, in, out, &fault, flags);
     if (*out && *out != before) sim_ledger_adopt (*out, strlen (*out) + 1);
     return rc;
 }
 
+int sim_convert (const char *in, char **out, int flags) { return convert_adopt (default_conv, in, out, flags); }
+
 #ifdef SIM_WRAP_IDN2
-int __wrap_idn2_to_ascii_8z (const char *in, char **out, int flags)
-{
-    return sim_convert (in, out, flags);
-}
+int __wrap_idn2_to_ascii_8z (const char *in, char **out, int flags) { return sim_convert (in, out, flags); }
+/* every other libidn2 conversion entry point with the (input, output*, flags) shape is behind the same fault seam: "whatever
+ * error the IDN library returns" is not limited to the one call the library makes today */
+#define OTHER_CONV(name) \
+    extern int __real_##name (const char *, char **, int); \
+    int __wrap_##name (const char *in, char **out, int flags) { return convert_adopt ((conv_fn)__real_##name, in, out, flags); }
+OTHER_CONV (idn2_to_ascii_lz)
+OTHER_CONV (idn2_lookup_u8)
+OTHER_CONV (idn2_lookup_ul)
+OTHER_CONV (idn2_to_unicode_8z8z)
+OTHER_CONV (idn2_to_unicode_8zlz)
+OTHER_CONV (idn2_to_unicode_lzlz)
 #endif
